@@ -18,6 +18,7 @@ pub(crate) use s_harness;
 mod c01;
 mod sc;
 mod c03;
+mod c04;
 
 #[cfg(verif_probe)]
 mod probe;
